@@ -30,10 +30,15 @@ Section 6 (codec bodies): `bc1to5_bodies_trapfree`, `bc7_body_trapfree`, `bc6_bo
 `pixel_loop_wrappers_trapfree` — trapping mirrors (`Trap*.lean`) of the per-block / per-pixel bodies return `some`
 of the wrapping models' values for every input.
 
-NOT modelled for totality (exercised by the tie only, on both build profiles): the external `astc-decode` crate,
-the slicing inside the generic block / plane loops of `read_write.rs` beyond C05's address theorems, and `std`
-(`read_exact`, `io::copy`, `Vec::try_reserve_exact`).  That `f32` arithmetic and float → integer casts never panic
-is a fact about Rust that the mirrors assume.
+Section 7 (generic decode loops of `read_write.rs`): `line_buffer_trapfree`, `channel_conversion_buffer_trapfree`,
+`pixel_loops_trapfree`, `read_exact_image_trapfree`, `block_loops_trapfree`, `biplanar_loops_trapfree`, assembled
+`decode_loops_trapfree`, the F17 pair `f17_repaired_returns` / `f17_unrepaired_traps` — trapping mirrors (`TrapLoops*.lean`)
+of every slice, index and length computation of the loops return `some`, with C06's reader / allocator trace and all
+writes inside the rows of the view.
+
+NOT modelled for totality (exercised by the tie only, on both build profiles): the external `astc-decode` crate, `std`
+(`read_exact`, `io::copy`, `seek`, `Vec::try_reserve_exact`) and termination of the real loops.  That `f32` arithmetic and
+float → integer casts never panic is a fact about Rust that the mirrors assume.
 -/
 import DdsModel.Proofs.C01
 import DdsModel.Proofs.ReaderRefinesRun
